@@ -161,7 +161,10 @@ def t_sync(s):
     return s, "(SYNC:%d (IDENTIFIER %s))" % (1 if d == "!" else 0, ch)
 
 
-def t_prob(k):
+def t_prob(k, with_select=False, style=0):
+    if with_select:     # the weight reads the edge's (first) select binder
+        b = SEL_NAME[style]
+        return "%d + %s" % (k, b), "(PLUS (CONSTANT:INT %d) (IDENTIFIER %s))" % (k, b)
     return "%d" % k, "(CONSTANT:INT %d)" % k
 
 
@@ -244,7 +247,7 @@ def _render_xml(m, queries=None):
                                     guard=lay(m, t_guard(e.guard, e.guardstyle)[0]) if e.guard is not None else None,
                                     sync=lay(m, e.sync),
                                     assign=lay(m, t_assign(e.assign, e.select is not None, e.selstyle)[0]) if e.assign is not None else None,
-                                    prob=lay(m, t_prob(e.prob)[0]) if e.prob is not None else None,
+                                    prob=lay(m, t_prob(e.prob, e.select is not None, e.selstyle)[0]) if e.prob is not None else None,
                                     controllable=e.ctrl, order=ORDERS[e.order]))
         tpls.append(X.template(t.name, params=params_text(t.params) if t.params else None,
                                decl=((("int l1 = %d;" % t.locals) if t.locals is not None else "") + t.xdecl) or None,
@@ -319,7 +322,7 @@ def render_xta(m, chain=True):
                 if e.assign is not None:
                     body += " assign %s;" % lay(m, t_assign(e.assign, e.select is not None, e.selstyle)[0])
                 if e.prob is not None:
-                    body += " probability %s;" % t_prob(e.prob)[0]
+                    body += " probability %s;" % t_prob(e.prob, e.select is not None, e.selstyle)[0]
                 prev = t.edges[t.edges.index(e) - 1] if t.edges.index(e) > 0 else None
                 if chain and prev is not None and prev.src == e.src and e.prob is None:
                     # chained form: the source is inherited from the previous transition of the list
@@ -376,7 +379,7 @@ def expected(m, xml=True):
                 "guard": t_guard(e.guard, e.guardstyle)[1] if e.guard is not None else TRUE,
                 "sync": t_sync(e.sync)[1] if e.sync is not None else "()",
                 "assign": t_assign(e.assign, e.select is not None, e.selstyle)[1] if e.assign is not None else TRUE,
-                "prob": t_prob(e.prob)[1] if e.prob is not None else TRUE})
+                "prob": t_prob(e.prob, e.select is not None, e.selstyle)[1] if e.prob is not None else TRUE})
         d["templates"].append(tj)
         tp[t.name] = {"params": list(t.params), "unbound": len(t.params), "mapping": {}, "templ": t.name}
     # instances: parameters = own formals followed by the target's parameters; mapping = target's mapping + arguments
